@@ -81,6 +81,11 @@ def binop(I, op, a, b, node, inplace=False):
             return a + b
         if isinstance(a, (str, FStr)) and isinstance(b, (str, FStr)):
             return FStr([a, b])
+        from .layout import LStr
+
+        # text whose exact layout is not modelled absorbs a modelled neighbour (message building)
+        if isinstance(a, (str, FStr, LStr)) and isinstance(b, (str, FStr, LStr)):
+            return FStr([a, b])
     elif isinstance(op, ast.Sub):
         if sym.is_num(a) and sym.is_num(b):
             return sym.num_sub(a, b)
